@@ -67,7 +67,12 @@ type Request struct {
 	DecodeErr   error
 	Keyspace    string // the connection's keyspace when the frame arrived
 	Compression string
+	mu          sync.Mutex
+	sent        []byte // the bytes written in answer to this request
 }
+
+// Sent returns the raw bytes this node wrote in answer to the request.
+func (r *Request) Sent() []byte { r.mu.Lock(); defer r.mu.Unlock(); return append([]byte{}, r.sent...) }
 
 type RespKind int
 
@@ -475,16 +480,19 @@ func (c *Conn) handle(rawHdr, rawBody []byte) {
 	if h != nil {
 		resp = h(rq)
 	}
+	record := func(b []byte) { rq.mu.Lock(); rq.sent = append(rq.sent, b...); rq.mu.Unlock() }
 	if resp.Delay > 0 {
-		go func() { time.Sleep(resp.Delay); c.respond(header, resp) }()
+		go func() { time.Sleep(resp.Delay); c.respondRec(header, resp, record) }()
 	} else {
-		c.respond(header, resp)
+		c.respondRec(header, resp, record)
 	}
 }
 
 func (cl *Cluster) isTokenised(q string) bool { return false }
 
-func (c *Conn) respond(header *frame.Header, resp Response) {
+func (c *Conn) respond(header *frame.Header, resp Response) { c.respondRec(header, resp, nil) }
+
+func (c *Conn) respondRec(header *frame.Header, resp Response, record func([]byte)) {
 	stream := header.StreamId
 	if resp.Stream != nil {
 		stream = *resp.Stream
@@ -504,8 +512,21 @@ func (c *Conn) respond(header *frame.Header, resp Response) {
 		if !resp.NoCompress {
 			c.maybeCompress(f)
 		}
-		_ = c.write(func(w io.Writer) error { return Codec(c.Compression).EncodeFrame(f, w) })
+		_ = c.write(func(w io.Writer) error {
+			var buf bytes.Buffer
+			if err := Codec(c.Compression).EncodeFrame(f, &buf); err != nil {
+				return err
+			}
+			if record != nil {
+				record(buf.Bytes())
+			}
+			_, err := w.Write(buf.Bytes())
+			return err
+		})
 	case RespRaw:
+		if record != nil {
+			record(resp.Raw)
+		}
 		_ = c.WriteRaw(resp.Raw)
 	case RespSilent:
 	case RespClose:
